@@ -78,7 +78,31 @@ def await_value(I, st, v, node):
 
 
 def call_opaque(I, st, fv, args, kwargs, node):
-    raise Unsupported("call of opaque callable (line %s)" % getattr(node, "lineno", "?"))
+    """a callable the repo merely stores (factory, handler, job): described by a sidecar contract `opaque:<attr>`"""
+    from . import specs
+    from .vtypes import REG, NONE, is_ref, strip_opt, NULL
+    kind = fv.term[0]
+    attr = fv.term[1] if kind == "opaque_field" else None
+    c = I.db.get("opaque:%s" % attr) if attr else None
+    if c is None:
+        raise Unsupported("call of opaque callable %s (line %s): no `opaque:` contract" % (attr, getattr(node, "lineno", "?")))
+    I.used_contracts.add(c.key)
+    rt = REG.parse(c.returns) if c.returns else "NoneT"
+    res = NONE if rt == "NoneT" else st.fresh_val(rt, "res_" + attr, assume_alloc=False, finite=False)
+    env = {"result": res}
+    pre_heap, pre_alloc = dict(st.heap), st.alloc
+    saved = (st.old_heap, st.old_alloc)
+    st.old_heap, st.old_alloc = pre_heap, pre_alloc
+    st.spec_assume_alloc = False
+    try:
+        for cl in c.ensures:
+            st.assume(specs.eval_clause(I, st, cl, env, None))
+    finally:
+        st.old_heap, st.old_alloc = saved
+        st.spec_assume_alloc = True
+    if is_ref(strip_opt(res.ty)):
+        st.assume(z3.Or(res.term == NULL, z3.Select(st.alloc, res.term)))
+    return res
 
 
 def call_any_method(I, st, meth, obj, args, kwargs, node):
